@@ -386,8 +386,20 @@ def op_tal_handler(job):
             for sel in spec["selectors"]:
                 del canary()[:]
                 r = drv.serve_once(w.config, drv.s2b(sel + "\r\n"))
-                results.append({"selector": sel, "out": r["out"], "exc": r["exc"], "log": r["log"][-3:],
-                                "canary": list(canary()), "label": spec.get("label")})
+                row = {"selector": sel, "out": r["out"], "exc": r["exc"], "log": r["log"][-3:],
+                       "canary": list(canary()), "label": spec.get("label")}
+                if spec.get("direct"):
+                    # the same file through the engine alone (no handler): compile its text, expand with an empty Context
+                    simpleTAL, simpleTALES = _mods()
+                    data = [e for e in spec["tree"] if e["path"] == sel.lstrip("/")][0]["data"]
+                    try:
+                        tpl = simpleTAL.compileHTMLTemplate(drv.s2b(data).decode("utf-8", "replace"))
+                        f = io.StringIO()
+                        tpl.expand(simpleTALES.Context(allowPythonPath=0), f)
+                        row["direct"] = drv.b2s(f.getvalue().encode("utf-8", "xmlcharrefreplace"))
+                    except BaseException as e:
+                        row["direct_exc"] = type(e).__name__ + ": " + str(e)
+                results.append(row)
         finally:
             w.close()
     return results
